@@ -748,11 +748,25 @@ def c19_special(pid, prop, tier, seed, b):
         probes = [rng.choice([0, 1, -1, 7, 12, 100, -100]) for _ in range(2)]
         add('seq', [s, st] + [str(x) for x in probes], '%r style=%d' % (s, st), 'seq', 'seq')
         k += 1
+    # concrete single-file paths (no pad token): the single-frame pattern and its extension shapes
+    for _ in range(700 * n):
+        d = gens.directory(rng)
+        bn = gens.basename(rng)
+        kk = rng.random()
+        digits = '' if kk < 0.15 else ('0' * rng.choice([0, 0, 1, 3]) + str(rng.randint(0, 10 ** rng.randint(1, 5))))
+        if digits and rng.random() < 0.15:
+            digits = '-' + digits
+        e = gens.extension(rng) if rng.random() < 0.5 else rng.choice(['.c.gz', '.7z.tmp', '.h.in', '.tar.gz', '.v1.exr', '.a1', '.1a', '.x.y.z', '.c', '.a.b.c', '.R.gz', '.9z.tmp'])
+        s = d + bn + digits + e
+        if s == '' or '#' in s or '@' in s or '\\' in s:
+            continue
+        st = rng.choice([0, 1])
+        add('seq', [s, st], '%r style=%d' % (s, st), 'seq-file', 'seq')
     for i in range(120 * n):
         ents, seqs = [], []
         for j in range(rng.randint(1, 3)):
             bn = rng.choice(['foo.', 'bar_', 'img.', 'shot_010_', 'plate', 'a', 'mx-']) + ('' if j == 0 else 'v%s_' % 'abc'[j])
-            e = rng.choice(['.exr', '.jpg', '.tar.gz'])
+            e = rng.choice(['.exr', '.jpg', '.tar.gz', '.exr', '.c.gz', '.7z.tmp'])
             w = rng.choice([1, 3, 4, 5])
             vals = sorted(set(rng.randint(10 ** (w - 1) if w > 1 else 1, 10 ** w - 1) for _ in range(rng.randint(2, 6))))
             if rng.random() < 0.25 and w <= 3:
